@@ -76,6 +76,12 @@ def base_env(extra=None):
 				env.pop(k, None)
 			else:
 				env[k] = str(v)
+	if env.get("NUMBA_BOUNDSCHECK") == "1" and env.get("NUMBA_CACHE_DIR"):
+		# numba's on-disk cache is not keyed by the bounds-check flag: a
+		# cache=True kernel compiled without checks would be loaded silently
+		# (and a checked one would pollute the ordinary cache)
+		env["NUMBA_CACHE_DIR"] = env["NUMBA_CACHE_DIR"] + "-boundscheck"
+		os.makedirs(env["NUMBA_CACHE_DIR"], exist_ok=True)
 	return env
 
 
